@@ -188,6 +188,7 @@ PROPS["C03"] = {
     "legs": [
         {"test": "TestC03", "kind": "rapid",
          "quick": {"checks": 20000, "shards": 4, "shrink": "15s"}, "thorough": {"checks": 250000, "shards": 16}},
+        {"test": "TestC03Dynamic", "kind": "enum", "quick": {"shards": 2}, "thorough": {"shards": 4}},
     ],
     "min_nontrivial": {"quick": 5000, "thorough": 100000},
 }
